@@ -889,15 +889,21 @@ def set_schema(expression: exp.Expression, current_database: str | None) -> exp.
             )
         else:
             # SCHEMA
-            if db := expression.this.args.get("db"):  # noqa: SIM108
+            if db := expression.this.args.get("db"):
                 db_name = db.name
+                # the schema's database becomes the current database
+                set_database = db_name
             else:
                 # isn't qualified with a database
                 db_name = current_database or MISSING_DATABASE
+                set_database = None
 
             schema = expression.this.name
             return exp.Command(
-                this="SET", expression=exp.Literal.string(f"schema = '{db_name}.{schema}'"), set_schema=schema
+                this="SET",
+                expression=exp.Literal.string(f"schema = '{db_name}.{schema}'"),
+                set_schema=schema,
+                set_database=set_database,
             )
 
     return expression
